@@ -43,6 +43,14 @@ def run(ctx):
     ctx.scan(elim)
     k = no_stale_elements(ctx, "T3-no-stale-element", elim, g)
     ctx.floor("elimination routines scanned for stale element reads", k, 12)
+    ctx.clauses.append("the VecMatrix and const-generic Matrix routines are sibling implementations and agree in loop/call structure (T4 cross-check)")
+    IGN = ("nr_rows", "nr_columns", "from_elem", "index", "index_mut", "assert_failed", "new", "identity", "zero", "len", "box_assume_init_into_vec_unsafe", "new_uninit", "transpose", "submatrix")
+    for a_, b_ in ((TWINS[0], TWINS[1]), (SOLVES[0], SOLVES[1]),
+                   ("geometry::vec_matrix::VecMatrix::<T>::determinant", "geometry::matrix::Matrix::<T, N, N>::determinant"),
+                   ("geometry::vec_matrix::VecMatrix::<T>::null_space", "geometry::matrix::Matrix::<T, N, M>::null_space")):
+        siblings_agree(ctx, "T4-siblings-agree", a_, b_, "VecMatrix ~ Matrix", ignore=IGN, ignore_stores=True)
+    siblings_agree(ctx, "T4-siblings-agree", "<num_rational::Ratio<num_bigint::BigInt> as geometry::traits::Entry>::clear_col",
+                   "geometry::modular_solver::<impl geometry::traits::Entry for geometry::prime_residue_classes::PrimeResidueClass<P>>::clear_col", "field clear_col ~ field clear_col")
     padic_steps(ctx, g)
     residues(ctx)
     modulus(ctx)
